@@ -65,7 +65,7 @@ CHECKS = {
        "followed by K=1/2 arbitrary bytes; (3) projects of 2/3 mutually or self referencing user types over 10/7 body kinds "
        "(shortcut, choice, key shortcut, array, allOf, type, or, optional) with symbolic targets under 5 root shapes; (4) OpenAPI "
        "conversion at struct level: for every accepted text of an 11-schema corpus with one digit varied and at most one arbitrary trailing "
-       "bytes, building the Schema Object tree (jsoac.New, SetDescription) does not panic; (5) NewNumber/GuessSchemaType on a symbolic "
+       "byte, building the Schema Object tree (jsoac.New, SetDescription) does not panic; (5) NewNumber/GuessSchemaType on a symbolic "
        "mantissa with 16 concrete exponents at and beyond every limit of the implementation (refusal threshold +-1, 17-20 digits of "
        "both signs, 2^63, 2^64); (6) Example() of 41 concrete regex schemas, 14 of which compile but defeat the example generator "
        "(a generator panic is turned into a panic of the code under test); (7) single-byte mutations: every corpus text (jschema, enum, "
